@@ -129,7 +129,10 @@ fn child_run<D: Distance>(args: &Args, st: &Setup) {
     let pool = rayon::ThreadPoolBuilder::new().num_threads(1).build().unwrap();
     for v in 0..=versions {
         let mut wtxn = env.write_txn().unwrap();
-        let writer = Writer::<D>::new(adb::<D>(db), st.index, st.dims);
+        let mut writer = Writer::<D>::new(adb::<D>(db), st.index, st.dims);
+        if let Some(t) = args.get("tmpdir") {
+            writer.set_tmpdir(t);
+        }
         let armed = v == kver && v > 0;
         for (k, op) in version_ops(seed, v, st.dims).into_iter().enumerate() {
             if armed && kmode == "op" && k as u64 == kat {
@@ -226,7 +229,11 @@ fn verify_run<D: Distance>(args: &Args, st: &Setup) -> Result<String, String> {
     drop(rtxn);
     // life goes on: one more update + build + commit
     let mut wtxn = env.write_txn().map_err(|e| format!("write txn after the crash: {e:?}"))?;
-    let writer = Writer::<D>::new(adb::<D>(db), st.index, st.dims);
+    let mut writer = Writer::<D>::new(adb::<D>(db), st.index, st.dims);
+    if let Some(t) = args.get("tmpdir") {
+        // the scratch directory the crashed process was using: whatever it left there must not matter
+        writer.set_tmpdir(t);
+    }
     let extra: Vec<f32> = oracle::expected_readback(Metric::Euclidean, &sentinel_vec(st.dims, 0xAAAA));
     writer.add_item(&mut wtxn, 12345, &extra).map_err(|e| format!("add after the crash: {e:?}"))?;
     writer.del_item(&mut wtxn, *m.items.keys().next().unwrap()).map_err(|e| format!("del after the crash: {e:?}"))?;
@@ -241,6 +248,24 @@ fn verify_run<D: Distance>(args: &Args, st: &Setup) -> Result<String, String> {
     let dec = rawdb::decode(&d, &decl)?.remove(&st.index).unwrap_or_default();
     forest::check_forest(&dec, st.dims, st.metric.disk_name()).map_err(|e| format!("after the post-crash update: {e}"))?;
     engine::check_store::<D>(&rtxn, db, &m, &[12345, first], true, &mut c).map_err(|e| format!("after the post-crash update: {e}"))?;
+    drop(rtxn);
+    // and once more with other content (a leftover of the crashed build must not leak into a later, different build)
+    let mut wtxn = env.write_txn().map_err(|e| format!("{e:?}"))?;
+    let mut r2 = StdRng::seed_from_u64(seed ^ 0x51);
+    for k in 0..25u32 {
+        let vecx: Vec<f32> = (0..st.dims).map(|_| r2.gen_range(-1.0f32..1.0)).collect();
+        writer.add_item(&mut wtxn, 20_000 + k, &vecx).map_err(|e| format!("second add after the crash: {e:?}"))?;
+        m.items.insert(20_000 + k, vecx);
+    }
+    let mut rng = StdRng::seed_from_u64(6);
+    writer.builder(&mut rng).n_trees(st.n_trees).split_after(st.split_after).build(&mut wtxn).map_err(|e| format!("second build after the crash: {e:?}"))?;
+    wtxn.commit().map_err(|e| format!("{e:?}"))?;
+    let rtxn = env.read_txn().unwrap();
+    let d = rawdb::dump(&rtxn, db)?;
+    let dec = rawdb::decode(&d, &decl).map_err(|e| format!("after the second post-crash update: {e}"))?.remove(&st.index).unwrap_or_default();
+    forest::check_forest(&dec, st.dims, st.metric.disk_name()).map_err(|e| format!("after the second post-crash update: {e}"))?;
+    let mut qrng = StdRng::seed_from_u64(seed ^ 98);
+    engine::check_exact::<D>(&rtxn, db, &m, &mut qrng, 2, true, &mut c).map_err(|e| format!("after the second post-crash update: {e}"))?;
     Ok(format!("v={v} items={} which={}", m.items.len(), if v == acked { "acked" } else { "inflight" }))
 }
 
